@@ -5,6 +5,8 @@ import (
 	"runtime"
 	"sync"
 	"sync/atomic"
+
+	"github.com/pgavlin/dawn/internal/verifhook"
 )
 
 type CyclicDependencyError string
@@ -59,11 +61,17 @@ func newTarget(label string) *target {
 func (t *target) start(r *runner) {
 	t.m.Lock()
 	if t.status != statusIdle {
+		if verifhook.Enabled {
+			verifhook.At("start.noop", t.label)
+		}
 		t.m.Unlock()
 		return
 	}
 
 	t.status = statusRunning
+	if verifhook.Enabled {
+		verifhook.At("start.run", t.label)
+	}
 	t.m.Unlock()
 
 	go t.run(r)
@@ -90,14 +98,23 @@ func (t *target) run(r *runner) {
 
 	r.gate.enter()
 	defer r.gate.exit()
+	if verifhook.Enabled {
+		verifhook.At("run.entered", t.label)
+	}
 
 	// Load the target.
 	tt, err := r.targetLoader.LoadTarget(t.label)
+	if verifhook.Enabled {
+		verifhook.At("run.loaded", t.label, err == nil)
+	}
 	if err != nil {
 		t.m.Lock()
 		defer unlock()
 
 		t.status, t.err = statusFailed, err
+		if verifhook.Enabled {
+			verifhook.At("run.finished", t.label, t.status)
+		}
 		return
 	}
 	t.target = tt
@@ -111,6 +128,9 @@ func (t *target) run(r *runner) {
 	t.m.Lock()
 	defer unlock()
 	t.status, t.err = status, err
+	if verifhook.Enabled {
+		verifhook.At("run.finished", t.label, t.status)
+	}
 }
 
 type engine struct {
@@ -120,6 +140,9 @@ type engine struct {
 
 func (e *engine) check(dep *target, seen map[*target]struct{}) error {
 	if dep == e.root {
+		if verifhook.Enabled {
+			verifhook.At("walk.cycle", e.root.label, dep.label)
+		}
 		return CyclicDependencyError(fmt.Sprintf("cyclic dependency on %v", dep.label))
 	}
 
@@ -130,8 +153,17 @@ func (e *engine) check(dep *target, seen map[*target]struct{}) error {
 	}
 	seen[dep] = struct{}{}
 
+	if verifhook.Enabled {
+		verifhook.At("walk.pre", e.root.label, dep.label)
+	}
 	if waiting := dep.waiting.Load(); waiting != nil {
+		if verifhook.Enabled {
+			verifhook.At("walk.load", e.root.label, dep.label, true)
+		}
 		return e.checkDeps(*waiting, seen)
+	}
+	if verifhook.Enabled {
+		verifhook.At("walk.load", e.root.label, dep.label, false)
 	}
 	return nil
 }
@@ -146,8 +178,14 @@ func (e *engine) checkDeps(deps []*target, seen map[*target]struct{}) error {
 }
 
 func (e *engine) EvaluateTargets(labels ...string) []Result {
+	if verifhook.Enabled {
+		verifhook.At("eval.begin", e.root.label, labels)
+	}
 	e.runner.gate.exit()
 	defer e.runner.gate.enter()
+	if verifhook.Enabled {
+		defer verifhook.At("eval.reenter", e.root.label)
+	}
 
 	targets := make([]*target, len(labels))
 	for i, label := range labels {
@@ -155,8 +193,16 @@ func (e *engine) EvaluateTargets(labels ...string) []Result {
 		targets[i].start(e.runner)
 	}
 
+	if verifhook.Enabled {
+		verifhook.At("publish.pre", e.root.label)
+		defer verifhook.At("clear.post", e.root.label)
+	}
 	e.root.waiting.Swap(&targets)
 	defer e.root.waiting.Swap(nil)
+	if verifhook.Enabled {
+		verifhook.At("publish.post", e.root.label, labels)
+		defer verifhook.At("clear.pre", e.root.label)
+	}
 
 	results := make([]Result, len(targets))
 	if err := e.checkDeps(targets, map[*target]struct{}{}); err != nil {
@@ -168,8 +214,14 @@ func (e *engine) EvaluateTargets(labels ...string) []Result {
 	}
 
 	for i, t := range targets {
+		if verifhook.Enabled {
+			verifhook.At("wait.begin", e.root.label, t.label)
+		}
 		results[i].Error = t.wait()
 		results[i].Target = t.target
+		if verifhook.Enabled {
+			verifhook.At("wait.end", e.root.label, t.label, results[i].Error == nil)
+		}
 	}
 	return results
 }
@@ -194,6 +246,9 @@ func (g *gate) enter() {
 		g.cond.Wait()
 	}
 	g.capacity--
+	if verifhook.Enabled {
+		verifhook.At("gate.enter", g.capacity)
+	}
 }
 
 func (g *gate) exit() {
@@ -201,6 +256,9 @@ func (g *gate) exit() {
 	defer g.m.Unlock()
 
 	g.capacity++
+	if verifhook.Enabled {
+		verifhook.At("gate.exit", g.capacity)
+	}
 	g.cond.Signal()
 }
 
@@ -219,5 +277,8 @@ func Run(targets Targets, label string) error {
 	r := runner{targetLoader: targets, gate: newGate(runtime.NumCPU())}
 	t := r.getTarget(label)
 	t.start(&r)
+	if verifhook.Enabled {
+		defer verifhook.At("main.returned", label)
+	}
 	return t.wait()
 }
